@@ -22,6 +22,7 @@ func letter(lo, hi byte) string {
 type blockItem struct {
 	typ    string
 	labels int
+	form   int // JSON only: 0 = object, 1 = array with one object, 2 = null (the property stands for no block at all)
 }
 
 type bodyDesc struct {
@@ -41,7 +42,11 @@ func genBody() bodyDesc {
 	}
 	nb := pick(vf.Param("maxblocks", 2) + 1)
 	for i := 0; i < nb; i++ {
-		b.blocks = append(b.blocks, blockItem{letter('x', 'y'), pick(2)})
+		form := 0
+		if vf.Param("impl", 0) == 1 {
+			form = pick(3)
+		}
+		b.blocks = append(b.blocks, blockItem{letter('x', 'y'), pick(2), form})
 	}
 	return b
 }
@@ -85,6 +90,12 @@ func jsonArrayBody(b bodyDesc) string {
 		if blk.labels == 1 {
 			inner = `{"l": ` + inner + `}`
 		}
+		switch blk.form {
+		case 1:
+			inner = "[" + inner + "]"
+		case 2:
+			inner = "null"
+		}
 		src += `{"` + blk.typ + `": ` + inner + `}`
 	}
 	return src + "]"
@@ -113,7 +124,7 @@ func genSchema() schemaDesc {
 		for _, o := range s.blocks {
 			vf.Assume(t != o.typ)
 		}
-		s.blocks = append(s.blocks, blockItem{t, pick(2)})
+		s.blocks = append(s.blocks, blockItem{t, pick(2), 0})
 	}
 	return s
 }
@@ -174,7 +185,13 @@ func model(b bodyDesc, s schemaDesc, fromA, toA, fromB, toB int) (e expect, labe
 		for i := fromB; i < toB && i < len(s.blocks); i++ {
 			if s.blocks[i].typ == blk.typ {
 				matched = true
-				if s.blocks[i].labels != blk.labels {
+				if blk.form == 2 {
+					// a null property yields no block, but it is accounted for by the block type;
+					// where the schema wants a label, null is not an object of labels
+					if s.blocks[i].labels > 0 {
+						e.err = true
+					}
+				} else if s.blocks[i].labels != blk.labels {
 					e.err = true
 					labelMismatch = true
 				} else {
